@@ -1,6 +1,6 @@
 (* C10 — PT-TEBD chain dynamics are exact where checkable, in every execution mode. *)
 From Coq Require Import Arith List Bool Permutation.
-From OQ Require Import Model.Chain Proofs.ChainSpec.
+From OQ Require Import Model.Chain Proofs.ChainSpec Proofs.ChainTime.
 Import ListNotations.
 
 (* (1) the Trotter layers, for every chain length: order 1 is (even, odd), order 2 is
@@ -25,6 +25,23 @@ Print Assumptions layers_spec.
 Theorem site_factors : forall n i, 2 <= n -> i < n -> total_weight2 n i = 2.
 Proof. exact ChainSpec.site_factors. Qed.
 Print Assumptions site_factors.
+
+(* (2b) (1) and (2) together, dynamically: run the gate layers of one TEBD step with a gate that only
+   advances per-site clocks by (site weight of the bond) x (layer fraction) — the uncoupled chain, whose
+   gates are products of single-site propagators.  Every site's clock advances by exactly one full time
+   step (8 units of 1/8), for every chain length >= 2, both Trotter orders and every starting state:
+   the uncoupled chain reproduces the single-site dynamics, no site is propagated too long or too short *)
+Theorem one_time_step_per_site :
+  forall (B : Type) (db : B) (n order : nat) (s : cstate nat B),
+    2 <= n -> order = 1 \/ order = 2 -> length (fst s) = n ->
+    forall i, i < n -> nth i (fst (tebd_step B db n order s)) 0 = nth i (fst s) 0 + 8.
+Proof. exact ChainTime.one_time_step_per_site. Qed.
+Print Assumptions one_time_step_per_site.
+
+Example clocks_after_one_step :
+  fst (tebd_step unit tt 5 2 ([0; 0; 0; 0; 0], [tt; tt; tt; tt; tt; tt])) = [8; 8; 8; 8; 8] /\
+  fst (tebd_step unit tt 2 1 ([3; 1], [tt; tt; tt])) = [11; 9].
+Proof. split; reflexivity. Qed.
 
 (* (3) execution modes.  A gate on (l, l+1) reads lambda_l, Gamma_l, lambda_{l+1}, Gamma_{l+1},
    lambda_{l+2} and writes Gamma_l, lambda_{l+1}, Gamma_{l+1}; for ANY gate function, chain state and
